@@ -113,6 +113,7 @@ func c03DeepDoc(depth int, ctx string) string {
 
 func c03Enumerate(tier string, emit func(*eng.Case)) {
 	crossEmit("C03", tier, "xpara", 1, emit)
+	emit = withDecor(decorEvery(tier), emit)
 	// every nesting depth up to 300 (a walker or clone that gives up at some depth cuts a paragraph)
 	maxDepth := 300
 	for d := 1; d <= maxDepth; d++ {
@@ -286,9 +287,9 @@ func init() {
 		Prepare:   func(tier string) { CrossCorpus(tier) },
 		Bounds: func(tier string) map[string]any {
 			if tier == "thorough" {
-				return map[string]any{"max_children": 5, "inline_symbols": len(c03Inl), "contexts": 6, "surroundings": 3}
+				return map[string]any{"decorated_variants": decorBound(tier), "max_children": 5, "inline_symbols": len(c03Inl), "contexts": 6, "surroundings": 3}
 			}
-			return map[string]any{"max_children": 4, "inline_symbols": c03QuickSyms, "contexts": 6, "surroundings": 3, "full_length_pairs": 3}
+			return map[string]any{"decorated_variants": decorBound(tier), "max_children": 4, "inline_symbols": c03QuickSyms, "contexts": 6, "surroundings": 3, "full_length_pairs": 3}
 		},
 	})
 }
